@@ -27,4 +27,22 @@ int  b_trail_length(char c)   { return booster::locale::utf::utf_traits<char>::t
 int  b_width(unsigned c)      { return booster::locale::utf::utf_traits<char>::width(c); }
 bool b_is_trail(char c)       { return booster::locale::utf::utf_traits<char>::is_trail(c); }
 bool b_is_lead(char c)        { return booster::locale::utf::utf_traits<char>::is_lead(c); }
+// UTF-16 arithmetic of the support library (utf_traits<CharType,2>), instantiated for char16_t
+typedef booster::locale::utf::utf_traits<char16_t> u16;
+bool     b16_first(unsigned short x)                     { return u16::is_first_surrogate(x); }
+bool     b16_second(unsigned short x)                    { return u16::is_second_surrogate(x); }
+unsigned b16_combine(unsigned short a,unsigned short b)  { return u16::combine_surrogate(a,b); }
+int      b16_trail_length(char16_t c)                    { return u16::trail_length(c); }
+int      b16_width(unsigned c)                           { return u16::width(c); }
+// the encoders (templates over the output iterator), instantiated for plain pointers
+char     *b_encode(unsigned v,char *out)                 { return booster::locale::utf::utf_traits<char>::encode(v,out); }
+char16_t *b16_encode(unsigned v,char16_t *out)           { return u16::encode(v,out); }
+// the validate loop of the framework (template over the iterator), instantiated for char const *
+bool      c_validate(char const *p,char const *e,size_t &count,bool html) { return cppcms::utf8::validate(p,e,count,html); }
+// the next-character function of the framework (template over the iterator), instantiated for char const *
+unsigned  c_next(char const *&p,char const *e,bool html) { return cppcms::utf8::next(p,e,html,false); }
+bool      c_validate3(char const *p,char const *e,bool html)    { return cppcms::utf8::validate(p,e,html); }
+unsigned  b_decode(char const *&p,char const *e)         { return booster::locale::utf::utf_traits<char>::decode(p,e); }
+int       b_max_width()                                  { return booster::locale::utf::utf_traits<char>::max_width; }
+int       b16_max_width()                                { return u16::max_width; }
 }
